@@ -58,7 +58,7 @@ package paillier
 //@   panics_iff[C12] abs(natval(m)) > natval(pk.nNat) / 2
 //@   modifies nothing
 //@   allocates
-//@   ensures result != nil && fresh(result)
+//@   ensures result != nil && fresh(result) && fresh(result.c)
 //@   ensures[C12] natval(result.c) == (modexp(natval(pk.nPlusOne), natval(m), natval(pk.nNat) * natval(pk.nNat)) * modexp(natval(nonce), natval(pk.nNat), natval(pk.nNat) * natval(pk.nNat))) % (natval(pk.nNat) * natval(pk.nNat))
 
 //@ func (*PublicKey).N
@@ -98,8 +98,9 @@ package paillier
 //@ func (*Ciphertext).Mul
 //@   nopanic[C05]
 //@   modifies Ciphertext.c@ct
+//@   allocates
 //@   requires ct != nil && pkok(pk)
-//@   ensures result == ct
+//@   ensures result == ct && (ct.c == old(ct.c) || fresh(ct.c))
 
 //@ func (*Ciphertext).Randomize
 //@   nopanic[C05]
@@ -117,7 +118,7 @@ package paillier
 //@   modifies nothing
 //@   allocates
 //@   requires ct.c != nil
-//@   ensures result != nil && fresh(result)
+//@   ensures result != nil && fresh(result) && fresh(result.c)
 
 //@ func (*Ciphertext).WriteTo
 //@   nopanic[C05]
